@@ -143,6 +143,9 @@ fn choose_transfer_encoding(
             // getting list of requested elements
             let mut parse = util::parse_header_value(value.as_str()); // TODO: remove conversion
 
+            // a NaN quality value cannot be ordered
+            parse.retain(|v| !v.1.is_nan());
+
             // sorting elements by most priority
             parse.sort_by(|a, b| b.1.partial_cmp(&a.1).unwrap_or(Ordering::Equal));
 
